@@ -85,6 +85,15 @@ CHECKS["C03"] = dict(
     note="Bound: streams <= 4 bytes + buffer <= 1 (thorough 6-8 + 2), values 0/2/3 bytes, one cut + receive size 4. " + NETNOTE,
     design="3 (C03)", technique=CH)
 
+CHECKS["C06"] = dict(
+    text="Bounded symbolic execution of _connect/close and the call paths of Client (also inside PooledClient/HashClient) "
+         "against NetSim with two environment failures at symbolic occurrences over every socket-module call kind, symbolic "
+         "error kind, symbolic and distinct connect/I-O timeouts: monitors bound the number of open sockets at every event, "
+         "require every call that no failure struck to succeed, check the timeout in force at connect and at every "
+         "sendall/recv, that TLS I/O goes through the wrapper, and that no socket stays open after close(). All shards exhaust.",
+    note="Bound: 4-call history + close(), two failures, <= 2 (thorough 3) resolved addresses. " + NETNOTE,
+    design="3 (C06)", technique=CH)
+
 NOT_YET = {}
 
 NA_REASON_PENDING = "check not built yet in this session (planned; see DESIGN.md section 3)"
